@@ -4,11 +4,15 @@
 # generated inputs (sizes aimed at the field-width and 100-member boundaries), boundary-padded inputs,
 # relabelled inputs, and repository corpus files, x the writer configurations; the arithmetic model is
 # compared with what the real outputs contain (/W widths, members per object stream, xref lines).
+# Source tie: coq/Gen/Leaf.v is generated from the clang AST of bytesNeeded (and the leaves of C03 C05 C07 C15) on every run,
+# File/C02TieProofs.v proves it equal to the model; harness/leafcheck.py compares the generated Gallina with the compiled
+# source text of each translated function (part "leaf-translation").
 import os, re
-import common, filecheck, pdfgen, dociso
+import common, filecheck, pdfgen, dociso, leafcheck
 from pdfgen import Name, Ref, Stream
 
 ASSUMPTIONS = [
+    "translated leaves (harness/translate_leaf.py): clang 14's AST is what g++ compiles; LP64 type sizes; the reading of the C++ subset in coq/Base/LeafSem.v (checked against the compiled source text on every run, part leaf-translation)",
     "the strict reader is the specification (written from ISO 32000-1 7.5); it judges file structure, not object-level token legality of names preserved from damaged inputs",
     "contents of encrypted object streams are not decrypted here (slot counts only); C05's reference decryptor covers them",
     "outputs above 150 kB are judged by size-independent theorems only (the extracted list-based reader is slow on them)",
@@ -249,6 +253,8 @@ def run(chk):
     # ---- byte-exact correspondence of the extracted object-stream / xref-stream writer model (harness/c02xs.py)
     import c02xs
     c02xs.run_part(chk, wd, runner)
+    # the source -> Gallina translation of the leaf functions (bytesNeeded, ...) against the compiled source text
+    leafcheck.run_part(chk)
     inputs = build_inputs(chk, wd)
     cfgs = filecheck.CONFIGS_QUICK
     jobs = []
